@@ -1347,6 +1347,26 @@ func genC26(r *simrt.Rand, tier string) any {
 			sc.Ops = append(sc.Ops, Op{Op: "CREATE", H: 1, Name: fmt.Sprintf("new%d", i)})
 		}
 	}
+	if r.Pct(30) && len(sc.Tree) > 1 {
+		// fault-injecting class: the per-entry attribute refresh (lstat) of some entries fails while the
+		// directory is being listed - once, or for one entry every time. A listing hit by such a fault may
+		// fail; one that completes must still hold every name exactly once within the size limit.
+		for i, nf := 0, 1+r.Int(2); i < nf; i++ {
+			f := simfs.Fault{Op: "Lstat", Kind: "eio"}
+			if r.Pct(50) {
+				f.PathSfx = sc.Tree[1+r.Int(len(sc.Tree)-1)].Path
+				f.Nth, f.Repeat = 2+r.Int(2), true
+			} else {
+				f.Nth = 2*len(sc.Tree) + 1 + r.Int(3*len(sc.Tree)+3)
+			}
+			sc.Faults = append(sc.Faults, f)
+		}
+		for i := range sc.Ops {
+			if sc.Ops[i].Op == "CREATE" {
+				sc.Ops[i] = Op{Op: "READDIRPLUS", H: 1, Count: 4096, Dir2: 4096}
+			}
+		}
+	}
 	return sc
 }
 
